@@ -71,15 +71,28 @@ func judge(c *core.Case, mc *muCase, d *driver, log []event) {
 			seen[e.Addr] = append(seen[e.Addr], e)
 		}
 	}
-	// the k-th request the room saw for an address belongs to the k-th call on it
+	// Calls on one address are made one after the other: a call's request is
+	// the first one of its kind the room saw for the address after the call
+	// began and before the next call on that address began.
 	perAddr := map[string][]*callRec{}
 	for _, r := range order {
 		perAddr[r.addr] = append(perAddr[r.addr], r)
 	}
 	for a, rs := range perAddr {
 		for k, r := range rs {
-			if k < len(seen[a]) {
-				r.reqID, r.reqTyp, r.haveReq = seen[a][k].ID, seen[a][k].Typ, true
+			until := int64(1 << 62)
+			if k+1 < len(rs) {
+				until = rs[k+1].tCall
+			}
+			wantTyp := ""
+			if r.op == "leave" {
+				wantTyp = "unavailable"
+			}
+			for _, e := range seen[a] {
+				if e.T > r.tCall && e.T < until && e.Typ == wantTyp {
+					r.reqID, r.reqTyp, r.haveReq = e.ID, e.Typ, true
+					break
+				}
 			}
 		}
 	}
